@@ -268,6 +268,15 @@ func (s *Store) startOrReuseFile() (fref *FileRef, file File, err error) {
 
 			return fref, file, nil
 		}
+
+		// The top-level collection may have nothing persisted yet
+		// while child collections do; their segments live in the
+		// current file too, so that file must be reused then.
+		if fref := s.footer.childFileRef(); fref != nil {
+			file := fref.AddRef()
+
+			return fref, file, nil
+		}
 	}
 
 	return s.startFileLOCKED()
